@@ -23,8 +23,10 @@ EXTENDS Streams
 
 CONSTANTS GuardTypedNil,      \* TRUE: typed-nil pointer payloads/destinations yield an error (normative)
                               \* FALSE: as-built, reflect on the zero Value / nil dereference panics (finding D10)
-          CloseOnNilPayload   \* TRUE: with ClosesStream the stream is closed even when the payload/destination is nil (normative)
+          CloseOnNilPayload,  \* TRUE: with ClosesStream the stream is closed even when the payload/destination is nil (normative)
                               \* FALSE: as-built, the nil check returns before the closer is installed
+          PooledBuffer        \* FALSE: every Consume reads into its own fresh bytes.Buffer (the code)
+                              \* TRUE: mutated model, the intermediate buffer is shared between calls (sync.Pool)
 
 Blob(seq) == [n |-> Len(seq), h |-> "", b |-> seq]
 EmptyBlob == Blob(<<>>)
@@ -252,8 +254,80 @@ ProduceWhy(p, o) ==
   ELSE "written-bytes-differ"
 
 (***************************************************************************)
+(* Part A2: successive Consume calls of the byte-stream consumer through   *)
+(* the buffered path (state machine).  What one call stored must not be    *)
+(* touched by later calls, nor by the caller changing another stored       *)
+(* value: "never alias".                                                   *)
+(*   history  h = sequence of steps                                        *)
+(*     [op |-> "consume", dst, content, target |-> 0]                      *)
+(*     [op |-> "mutate", dst |-> "", content |-> <<>>, target |-> j]       *)
+(*        the caller overwrites byte 1 of the value stored by the j-th     *)
+(*        step (a []byte-kind destination) with MutByte                    *)
+(*   state    q = [held, alias, pool]                                      *)
+(*     held[j]  bytes the destination of step j holds now (<<>> for a      *)
+(*              mutate step), alias[j]: it shares the pooled buffer        *)
+(* Faithful: v.SetBytes(buf.Bytes()) / *dst = b keep the buffer's array,   *)
+(* string destinations and BinaryUnmarshaler copy.  With a fresh buffer    *)
+(* per call nobody else ever sees that array.                              *)
+(***************************************************************************)
+SeqDst == {"pbytes", "pnbytes", "anybytes", "pstring", "anystring", "binunm"}
+ByteKindDst == {"pbytes", "pnbytes", "anybytes"}
+MutByte == 238
+
+SeqInit == [held |-> <<>>, alias |-> <<>>, pool |-> <<>>]
+
+(* new bytes written at the start of an array that holds old ones *)
+Overlay(old, new) == [i \in 1..Len(old) |-> IF i <= Len(new) THEN new[i] ELSE old[i]]
+
+SeqConsume(q, st) ==
+  LET held1 == IF PooledBuffer                              \* buf.Reset(); buf.ReadFrom(reader) rewrites the shared array
+               THEN [j \in 1..Len(q.held) |-> IF q.alias[j] THEN Overlay(q.held[j], st.content) ELSE q.held[j]]
+               ELSE q.held
+  IN [held  |-> Append(held1, st.content),
+      alias |-> Append(q.alias, PooledBuffer /\ st.dst \in ByteKindDst),
+      pool  |-> IF PooledBuffer THEN st.content ELSE q.pool]
+
+SeqMutate(q, st) ==
+  LET t == st.target
+      poke(x) == IF x = <<>> THEN x ELSE [x EXCEPT ![1] = MutByte]
+  IN [held  |-> Append([j \in 1..Len(q.held) |-> IF j = t \/ (q.alias[t] /\ q.alias[j]) THEN poke(q.held[j]) ELSE q.held[j]], <<>>),
+      alias |-> Append(q.alias, FALSE),
+      pool  |-> IF q.alias[t] THEN poke(q.pool) ELSE q.pool]
+
+SeqStep(q, st) == IF st.op = "consume" THEN SeqConsume(q, st) ELSE SeqMutate(q, st)
+
+RECURSIVE SeqRun(_, _)
+SeqRun(h, i) == IF i = 0 THEN SeqInit ELSE SeqStep(SeqRun(h, i - 1), h[i])
+
+(* the property: after i steps every destination holds exactly the bytes   *)
+(* it was given (with the caller's own change applied to that one value)   *)
+RECURSIVE ExpectedHeld(_, _)
+ExpectedHeld(h, i) ==
+  IF i = 0 THEN <<>>
+  ELSE LET e == ExpectedHeld(h, i - 1) IN
+       IF h[i].op = "consume" THEN Append(e, h[i].content)
+       ELSE LET t == h[i].target IN
+            Append([j \in 1..Len(e) |-> IF j = t /\ e[j] # <<>> THEN [e[j] EXCEPT ![1] = MutByte] ELSE e[j]], <<>>)
+
+SeqWellFormed(h) ==
+  \A i \in 1..Len(h) :
+     IF h[i].op = "consume" THEN h[i].dst \in SeqDst
+     ELSE h[i].target \in 1..(i - 1) /\ h[h[i].target].op = "consume" /\ h[h[i].target].dst \in ByteKindDst
+
+(* o = [i, err, held (blobs), panic]: observation after step i *)
+SeqAllowed(c, o) ==
+  /\ ~o.panic /\ o.err = "none"
+  /\ o.i \in 1..Len(c.hist)
+  /\ o.held = [j \in 1..o.i |-> Blob(ExpectedHeld(c.hist, o.i)[j])]
+
+SeqWhy(c, o) ==
+  IF o.panic THEN "panic" ELSE IF o.err # "none" THEN "unexpected-error" ELSE "earlier-destination-changed"
+
+(***************************************************************************)
 (* Part B: value round trip.  A value is                                    *)
 (*   [t, s, kids, keys]  t in null|bool|num|str|list|map|struct             *)
+(*                       |anystruct|namedmap|namedlist (typed JSON          *)
+(*                       destinations with interface{} positions)           *)
 (*   s: bytes of the string / number token / <<0|1>> for bool               *)
 (*   kids: element / member values; keys: member names (map)                *)
 (* The model of Consume_c(Produce_c(v)) is v; a document cut before its     *)
